@@ -153,7 +153,9 @@ ValuesOf(s) ==
       [] sh = "strpat" -> {[sh |-> sh, id |-> i, w |-> s[4]] : i \in Ids}
       [] OTHER -> {[sh |-> sh, id |-> i] : i \in Ids}
 
-IsWalk  == Mode \in {"walk", "nodup"}       \* "nodup": a walk in which no keyword is given twice in one block
+\* "nodup": a walk in which nothing is given twice in one block; "dupattr": only simple keywords may repeat
+IsWalk  == Mode \in {"walk", "nodup", "dupattr"}
+NoDupBlock == Mode \in {"nodup", "dupattr"}
 Pick(S) == IF IsWalk THEN {RandomElement(S)} ELSE S
 
 AttrSlots(t)  == {s \in SlotsBy[t] : s[3] \in ScalarShapes \cup ListShapes}
@@ -180,7 +182,7 @@ IdSeqs(n) == [1..n -> Ids]
 KV ==
     /\ \E s \in Pick(OtherSlots(Top.type, "kv") \cup {<<"", "", "", "">>}) :
          /\ s[1] # ""
-         /\ (Mode = "nodup" => ~HasKey(Top.d, s[2]))
+         /\ (NoDupBlock => ~HasKey(Top.d, s[2]))
          /\ \E n \in Pick(0..3), kc \in Pick(Cases) :
             \E ks \in Pick(IdSeqs(n)), vs \in Pick(IdSeqs(n)) :
               Apply([a |-> "kv", type |-> s[4], kc |-> kc,
@@ -190,14 +192,14 @@ KV ==
 
 Config ==
     /\ OtherSlots(Top.type, "config") # {}
-    /\ (Mode = "nodup" => ~HasKey(Top.d, "config"))
+    /\ (NoDupBlock => ~HasKey(Top.d, "config"))
     /\ \E k \in Pick(Ids), v \in Pick(Ids), kc \in Pick(Cases) :
          Apply([a |-> "config", kc |-> kc, k |-> [sh |-> "cfgkey", id |-> k], v |-> [sh |-> "str", id |-> v], post |-> <<>>])
     /\ UNCHANGED <<done, target>>
 
 Projection ==
     /\ OtherSlots(Top.type, "projection") # {}
-    /\ (Mode = "nodup" => ~HasKey(Top.d, "projection"))
+    /\ (NoDupBlock => ~HasKey(Top.d, "projection"))
     /\ \E auto \in Pick(BOOLEAN), n \in Pick(1..3), kc \in Pick(Cases) :
         \E ids \in Pick(IdSeqs(n)) :
          Apply([a |-> "projection", kc |-> kc, auto |-> auto, cs |-> kc,
@@ -208,7 +210,7 @@ Points ==
     /\ OtherSlots(Top.type, "points") \cup OtherSlots(Top.type, "pointslist") # {}
     /\ \E s \in Pick({x \in SlotsBy[Top.type] : x[3] \in {"points", "pointslist"}}) :
         \E n \in Pick(1..3), kc \in Pick(Cases) :
-         /\ (Mode = "nodup" => ~HasKey(Top.d, s[2]))
+         /\ (NoDupBlock => ~HasKey(Top.d, s[2]))
          /\ \E ts \in Pick([1..(2 * n) -> {"int", "float"}]) :
               Apply([a |-> IF s[2] = "pattern" THEN "pattern" ELSE "points", kc |-> kc,
                      pairs |-> [i \in 1..n |-> <<Num(ts[2 * i - 1], 2 * i - 1), Num(ts[2 * i], 2 * i)>>],
@@ -219,7 +221,7 @@ Open ==
     /\ Len(stack) <= MaxDepth
     /\ BlockSlots(Top.type) # {}
     /\ \E s \in Pick(BlockSlots(Top.type)), kc \in Pick(Cases) :
-         /\ (Mode = "nodup" /\ s[4] \in Singletons => ~HasKey(Top.d, s[4]))
+         /\ (NoDupBlock /\ s[4] \in Singletons => ~HasKey(Top.d, s[4]))
          \* an inline SYMBOL block inside STYLE/CLASS is stored under "symbols": finding 14; not generated
          /\ ~(s[2] = "symbol" /\ s[4] = "symbol")
          /\ LET newstack == Append(stack, [type |-> s[4], d |-> <<>>])
